@@ -1,6 +1,7 @@
 """C11 — JSON, YAML, dict and pickle round trips return the same model."""
 from contracts import c10_c11_io as C
 from contracts import c01_lp  # noqa
+from contracts import c11_reader as R
 from props._generic import run_property, replay_with_driver
 
 LEVEL = "other"
@@ -17,12 +18,96 @@ def lemmas():
     dom = [lb.k >= -1, lb.k <= 1, ub.k >= -1, ub.k <= 1, xr_le(lb, ub), lb.k != 1, ub.k != -1]
     valid_case = z3.And(xr_le(lb, ub), lb.k != 1, ub.k != -1)          # requires of Reaction.bounds@setter case `valid`
     raises_case = xr_lt(ub, lb)                                         # requires of case `lb_gt_ub`
-    return [Obl("C11/lemma/bounds-pair-protocol-never-raises-for-valid-pairs", dom, z3.And(valid_case, z3.Not(raises_case)), "lemma")]
+    out = [Obl("C11/lemma/bounds-pair-protocol-never-raises-for-valid-pairs", dom, z3.And(valid_case, z3.Not(raises_case)), "lemma")]
+    # round trip per object kind: writer post-condition o reader post-condition (contracts/c11_reader.py)
+    return out + R.lemmas()
+
+
+_READER_KEYS = ("_reaction_from_dict", "_metabolite_from_dict", "gene_from_dict")
+_reader_cache = {}
+
+
+def _reader_trial(rep):
+    """one native trial of the reader half: build the object, write it with the real writer, (optionally add the legacy keys), read
+    it back with the real reader and compare what C11 lists -> failure text or None"""
+    import warnings
+    import cobra
+    from cobra.io import dict as D
+    warnings.simplefilter("ignore")
+    notes, ann = ({"n": "1"}, {"sbo": "SBO:1"}) if rep.get("rich") else ({}, {})
+    if rep["kind"] == "metabolite_from_dict":
+        m = cobra.Metabolite("a_c", name="A", compartment="c", formula="H2O" if rep.get("rich") else None, charge=-2 if rep.get("rich") else None)
+        m.notes, m.annotation = notes, ann
+        m2 = D._metabolite_from_dict(D._metabolite_to_dict(m))
+        got = [(k, getattr(m, k), getattr(m2, k)) for k in ("id", "name", "compartment", "formula", "charge", "_bound", "notes", "annotation")]
+    elif rep["kind"] == "gene_from_dict":
+        g = cobra.Gene("g1", name="G" if rep.get("rich") else "")
+        g.notes, g.annotation = notes, ann
+        g2 = D.gene_from_dict(D._gene_to_dict(g))
+        got = [(k, getattr(g, k), getattr(g2, k)) for k in ("id", "name", "notes", "annotation")]
+    else:
+        model = cobra.Model("m")
+        a, b = cobra.Metabolite("a_c", compartment="c"), cobra.Metabolite("b_c", compartment="c")
+        model.add_metabolites([a, b])
+        r = cobra.Reaction("R1", name="r one", lower_bound=0, upper_bound=0, subsystem="S" if rep.get("rich") else "")
+        r._lower_bound, r._upper_bound = float(rep["lb"]), float(rep["ub"])
+        r.add_metabolites({cobra.Metabolite("a_c", compartment="c"): -1.5, cobra.Metabolite("b_c", compartment="c"): 2})
+        r.gene_reaction_rule = "g1 and g2" if rep.get("rich") else ""
+        r.notes, r.annotation = notes, ann
+        d = D._reaction_to_dict(r)
+        if rep.get("legacy"):
+            d["reversibility"], d["reaction"], d["objective_coefficient"] = True, "a_c --> x_c", 1.0
+        try:
+            r2 = D._reaction_from_dict(d, model)
+        except Exception as e:  # noqa
+            return f"_reaction_from_dict raised {e!r} for bounds ({rep['lb']}, {rep['ub']})"
+        got = [(k, getattr(r, k), getattr(r2, k)) for k in ("id", "name", "lower_bound", "upper_bound", "gene_reaction_rule", "subsystem",
+                                                           "notes", "annotation")]
+        st = lambda x: sorted((m.id, c, type(c).__name__) for m, c in x.metabolites.items())  # noqa
+        got.append(("metabolites", st(r), st(r2)))
+        if any(m.id in ("a_c", "b_c") and m is not model.metabolites.get_by_id(m.id) and m.model is not None for m in r2.metabolites):
+            return "a metabolite of the reaction read back belongs to another model"
+    for k, x, y in got:
+        if x != y and not (x != x and y != y):
+            return f"{rep['kind']}: attribute {k} written from {x!r} is read back as {y!r}"
+    return None
+
+
+def _reader_fallback(key):
+    """native search for a failed obligation of the reader half (cached per function)"""
+    if key in _reader_cache:
+        return _reader_cache[key]
+    import itertools
+    inf = float("inf")
+    trials = []
+    if key == "_reaction_from_dict":
+        grid = [-inf, -5000.0, -1000.0, -1.5, 0.0, 2.5, 1000.0, 5000.0, inf]
+        for lb, ub in itertools.product(grid, grid):
+            if lb <= ub and lb != inf and ub != -inf:
+                for rich, legacy in ((False, False), (True, True)):
+                    trials.append({"kind": "reaction_from_dict", "lb": repr(lb), "ub": repr(ub), "rich": rich, "legacy": legacy})
+    else:
+        trials = [{"kind": key.lstrip("_"), "rich": rich} for rich in (False, True)]
+    out = None
+    for rep in trials:
+        try:
+            f = _reader_trial(rep)
+        except Exception as e:  # noqa
+            f = f"{rep['kind']}: raised {e!r}"
+        if f:
+            out = {"key": key + ":native-round-trip", "failure": f, "replay": rep}
+            break
+    _reader_cache[key] = out
+    return out
 
 
 def fallback(key, case, rec):
     """native search for a failed _reaction_to_dict obligation: every pair of bounds from a grid; the written entry must be the
-    float itself for a finite bound and a string for inf / -inf / nan, and the JSON encoder (allow_nan=False) must accept it"""
+    float itself for a finite bound and a string for inf / -inf / nan, and the JSON encoder (allow_nan=False) must accept it;
+    for a failed obligation of the reader half: native writer -> reader round trips over a grid of valid bound pairs (beyond the
+    defaults, infinite), plain and rich objects, with and without the legacy keys"""
+    if key in _READER_KEYS:
+        return _reader_fallback(key)
     if key != "_reaction_to_dict":
         return None
     import itertools
@@ -58,7 +143,7 @@ def fallback(key, case, rec):
 
 
 def run(rep):
-    run_property(rep, KEYS, hooks=C.HOOKS, lemmas=lemmas, fallback=fallback, explanation=(
+    run_property(rep, KEYS, hooks=C.HOOKS, more=[(R.KEYS + R.ASSUMED_KEYS, R.HOOKS)], lemmas=lemmas, fallback=fallback, explanation=(
         "Deductive part (the writer half of the dict form): dict._fix_type is proved to be the identity on str/float/bool/int, to map "
         "None to '' and a dictionary to a NEW dictionary with the same keys and value objects; dict._update_optional is proved, for "
         "its four instantiations (reaction, metabolite, gene, model key lists; None-able attributes in both shapes), to write an "
@@ -68,14 +153,43 @@ def run(rep):
         "when it is finite and as a string exactly when it is infinite or NaN (what the JSON encoder needs), optional entries exactly "
         "as above; the bounds setters the loaders rely on are proved (C01 kernel) and the protocol lemma `assigning both bounds at once "
         "succeeds for every valid pair` follows from the setter contract (the one-at-a-time protocol of the original loaders did not: "
-        "fixed in /repo). The codecs (json, ruamel.yaml, pickle), the dict assembly loops over heterogeneous values and the gene-rule "
+        "fixed in /repo). The reader half: _metabolite_from_dict and gene_from_dict are proved to return a NEW object whose attributes "
+        "are exactly the entries of the record (every key assigned with the entry's value object - `id` / `annotation` through the "
+        "property setters of cobra.Object -, every other attribute as the constructor left it, no further attribute; records with the "
+        "writer's keys, every optional entry present or absent: 32 resp. 4 paths); _reaction_from_dict is proved, for bounds given as "
+        "floats or as strings, float or int coefficients and documents with the legacy keys, to never assign objective_coefficient / "
+        "reversibility / reaction, to hand add_metabolites (exactly one call) the mapping model.metabolites.get_by_id(k) -> coefficient "
+        "(DictList contract of C15; every key of the record's map is covered with its coefficient - ints kept, everything else "
+        "through float() - and nothing else is in the mapping), to leave BOTH bounds as given - float(entry) - for EVERY valid pair "
+        "(lb <= ub, lb < +inf, ub > -inf; also beyond the configured defaults) without raising: the loader assigns the pair at once, "
+        "then each bound again, through the C01 setter contracts applied at the new reaction's identity - and to assign every other key; "
+        "preconditions stated: the record's metabolites are in the model, a bound given as a string is one float() accepts, "
+        "Configuration().upper_bound >= 0 (Reaction() starts from a valid pair). Round-trip lemmas (136, composed from the very "
+        "post-conditions of writer and reader on synthetic states, one per shape of the object and per set of optional entries the "
+        "writer can emit): a metabolite / gene / reaction record that satisfies the writer's post-condition for an object x is read "
+        "back as an object with x's id, name, compartment, charge, formula, _bound resp. bounds (infinite and NaN bounds through the "
+        "string: assumed float(str(x)) == x), gene-rule text and subsystem, an omitted optional attribute comes back as the "
+        "constructor's default, which is the value it was omitted for, notes / annotation as dictionaries with the same keys and "
+        "value objects; one deviation is stated, not hidden: a metabolite whose compartment is None is written as '' and comes back "
+        "with compartment ''; and the writer's output for a reaction with valid bounds meets the reader's precondition on the bounds. "
+        "Assumed (trusted list): the constructors Metabolite() / Gene(id) / Reaction() with the defaults of their __init__ chain, the "
+        "gene_reaction_rule setter keeping the text it is given, add_metabolites as an abstract recorded call (what the reaction holds "
+        "afterwards, the writer's stoichiometry loop, model_to_dict / model_from_dict and objective coefficients are NOT claimed "
+        "deductively). The codecs (json, ruamel.yaml, pickle), the dict assembly loops over heterogeneous values and the gene-rule "
         "text are outside the verifier's reach: bounded driver (snapshot equality incl. the solver problem, optimum and idempotence for "
         "every format/variant on generated models, non-default Configuration bounds)."),
-        trusted=["json / ruamel.yaml / pickle codecs", "float(str(x)) == x"])
+        trusted=["json / ruamel.yaml / pickle codecs", "float(str(x)) == x (axiom of the round-trip lemmas, for +inf / -inf / NaN)",
+                 "float(s) / str(x) as uninterpreted functions (pyvc/builtins.py)"])
 
 
 def replay(payload):
     fi = (payload.get("failing_input") or {}).get("replay") or {}
+    if fi.get("kind") in ("reaction_from_dict", "metabolite_from_dict", "gene_from_dict"):
+        try:
+            f = _reader_trial(fi)
+        except Exception as e:  # noqa
+            f = f"raised {e!r}"
+        return {"reproduced": f is not None, "observed": f}
     if fi.get("kind") == "reaction_to_dict":
         import json
         import cobra
